@@ -1,5 +1,5 @@
 #!/bin/bash
 # usage: runall.sh [tier] [seed]  — every registered check on the current tree, one line each
-cd /verif
+cd "$(dirname "$0")/.."
 ids=$(python3 -c "import json;print(' '.join(c['property_id'] for c in json.load(open('MANIFEST.json'))['checks']))")
 for p in $ids; do VERIF_SEED=${2:-1} ./check $p --tier ${1:-quick} 2>&1 | grep -E "^(OK|VIOLATION|KNOWN-FINDING)" | cut -c1-260; done
